@@ -66,7 +66,7 @@ Definition assign_kw (F : flags) (fs : list field) (kt : Z * tree) : list citem 
   | None => if f_fix F then [] else [CKw k (RKeep t)]               (* outside the modelled scope *)
   | Some f =>
       if fd_default f then
-        if is_unm t then [CKw k (RKeep t)]
+        if has_unm t then [CKw k (RKeep t)]       (* an argument that holds a user-controlled part is never deleted *)
         else if val_eqb (eval t) (fd_val f)
              then (if f_update F then [] else [CKw k (RKeep t)])
              else (if f_fix F then [] else [CKw k (RKeep t)])
